@@ -124,6 +124,12 @@ func (c *fRegistryImpl) dispatch(opid uint64, frame []byte) error {
 	}
 	c.mu.RUnlock()
 
-	resultC <- frame
+	// The result channel holds one frame. A duplicate response must not block
+	// the caller of dispatch (the transport's single reader), so it is dropped.
+	select {
+	case resultC <- frame:
+	default:
+		logger().Warnf("frugal: dropping duplicate response for op id %d", opid)
+	}
 	return nil
 }
